@@ -1184,10 +1184,29 @@ class Printer:
                 if x.get('kind') == 'VarDecl':
                     self.local_ids.add(x['id'])
             self.fire('abs:loop-as-optional-body')
+            if self.unit.get('abs_loop_twice'):
+                # ordering obligations between consecutive iterations: zero, one or two iterations
+                b1 = self.st_abs(body, ind + 1)
+                b2 = self.st_abs(body, ind + 2)
+                return t + 'if (nondet_bool())\n' + t + '{\n' + b1 + t + '\tif (nondet_bool())\n' + t + '\t{\n' + b2 + t + '\t}\n' + t + '}\n'
             return t + 'if (nondet_bool())\n' + t + '{\n' + self.st_abs(body, ind + 1) + t + '}\n'
         if k in ('BreakStmt', 'ContinueStmt', 'NullStmt'):
             return t + ';\n'
         ro = self.root_object(n)
+        eff0 = self.unit.get('call_effects', {})
+        if eff0:
+            hits0 = []
+            for c in walk(n):
+                if c.get('kind') in ('CXXMemberCallExpr', 'CallExpr') and c.get('inner'):
+                    f0 = self.callee_decl(c['inner'][0])
+                    nm0 = f0.get('name') or f0.get('referencedDecl', {}).get('name')
+                    if nm0 in eff0:
+                        hits0.append(nm0)
+            if hits0 and not [x for x in risky_calls(n) if x not in eff0] and (self.is_value_local(ro) or self.skip(n).get('kind') in ('CXXMemberCallExpr', 'CallExpr')):
+                # a statement whose only model-relevant content is calls with declared ghost effects (also on a local object, e.g.
+                # the local output stream): the effects, in evaluation order of the walk
+                self.fire('abs:call-with-ghost-effect')
+                return ''.join(t + eff0[h] + ';   /* %s */\n' % h for h in hits0)
         if self.is_value_local(ro) and not risky_calls(n):
             self.fire('abs:local-only-statement')
             return t + '/* operates on a local variable */;\n'
